@@ -13,6 +13,7 @@ use crate::refcodec as rc;
 use crate::rng::Rng;
 use crate::simnet::{NetCfg, SimNet};
 use crate::simrt::{self, RtKnobs};
+use crate::sut;
 use serde::{Deserialize, Serialize};
 use std::collections::{BTreeMap, BTreeSet};
 use std::net::SocketAddr;
@@ -672,11 +673,206 @@ impl TypedScenario for C07Raw {
     }
 }
 
+// ---- the opening side: exhausted credit of one kind must not hold the other kind back ------------
+
+/// Real client and server. The acceptor allows `limit` concurrent streams of kind A; the opener
+/// opens as many, leaves them open (the acceptor never reads them), and has one more opening of
+/// kind A waiting for credit. A stream of the other kind is then opened, written and finished:
+/// it must reach the accepting application - streams are independent in the opening direction too.
+#[derive(Serialize, Deserialize, Clone, Debug)]
+pub struct OpenPlan {
+    pub seed: u64,
+    pub rt: RtKnobs,
+    pub net: NetCfg,
+    pub opener_is_client: bool,
+    /// kind whose credit is exhausted
+    pub stalled_bidi: bool,
+    pub limit: u64,
+    pub len: usize,
+}
+
+pub fn exec_open(plan: &OpenPlan, trace: bool) -> Exec {
+    let mut ex = Exec::new();
+    let plan = Arc::new(plan.clone());
+    let p2 = plan.clone();
+    let netslot: Arc<Mutex<Option<SimNet>>> = Arc::new(Mutex::new(None));
+    let ns2 = netslot.clone();
+    let out = simrt::run(&plan.rt, plan.seed, Duration::from_secs(300), move || async move {
+        let plan = p2;
+        let net = SimNet::new(plan.net.clone(), trace);
+        *ns2.lock().unwrap() = Some(net.clone());
+        let mut acc = EpKnobs::default();
+        let opn = EpKnobs::default();
+        if plan.stalled_bidi {
+            acc.max_bi = plan.limit + if plan.opener_is_client { 1 } else { 0 }; // + the CONNECT stream
+        } else {
+            acc.max_uni = plan.limit + 1; // + the peer's control stream
+        }
+        let pair = if plan.opener_is_client { harness::pair(&net, plan.seed, &opn, &acc) } else { harness::pair(&net, plan.seed, &acc, &opn) };
+        let (cconn, sconn) = harness::establish(&pair, &harness::default_url()).await.map_err(|e| format!("establish: {e}"))?;
+        let (opener, acceptor) = if plan.opener_is_client { (cconn, sconn) } else { (sconn, cconn) };
+        // the accepting application keeps accepting both kinds; it reads only the healthy kind
+        let got: Arc<Mutex<Vec<Vec<u8>>>> = Arc::new(Mutex::new(Vec::new()));
+        {
+            let (a, got, read_uni) = (acceptor.clone(), got.clone(), plan.stalled_bidi);
+            tokio::spawn(async move {
+                let mut parked = Vec::new();
+                while let Ok(mut r) = a.accept_uni().await {
+                    if read_uni {
+                        let got = got.clone();
+                        tokio::spawn(async move {
+                            let mut all = Vec::new();
+                            let mut buf = [0u8; 1024];
+                            while let Ok(Some(n)) = r.read(&mut buf).await {
+                                all.extend_from_slice(&buf[..n]);
+                            }
+                            got.lock().unwrap().push(all);
+                        });
+                    } else {
+                        parked.push(r);
+                    }
+                }
+            });
+        }
+        {
+            let (a, got, read_bi) = (acceptor.clone(), got.clone(), !plan.stalled_bidi);
+            tokio::spawn(async move {
+                let mut parked = Vec::new();
+                while let Ok((s, mut r)) = a.accept_bi().await {
+                    if read_bi {
+                        let got = got.clone();
+                        tokio::spawn(async move {
+                            let _keep = s;
+                            let mut all = Vec::new();
+                            let mut buf = [0u8; 1024];
+                            while let Ok(Some(n)) = r.read(&mut buf).await {
+                                all.extend_from_slice(&buf[..n]);
+                            }
+                            got.lock().unwrap().push(all);
+                        });
+                    } else {
+                        parked.push((s, r));
+                    }
+                }
+            });
+        }
+        // exhaust the credit of the stalled kind
+        let mut held: Vec<Box<dyn std::any::Any + Send>> = Vec::new();
+        for i in 0..plan.limit {
+            if plan.stalled_bidi {
+                let (mut s, r) = tokio::time::timeout(Duration::from_secs(30), async { opener.open_bi().await.map_err(|e| format!("{e:?}"))?.await.map_err(|e| format!("{e:?}")) }).await.map_err(|_| format!("open_bi #{i} within the limit blocked"))??;
+                let _ = s.write_all(b"x").await;
+                held.push(Box::new((s, r)));
+            } else {
+                let mut s = tokio::time::timeout(Duration::from_secs(30), async { opener.open_uni().await.map_err(|e| format!("{e:?}"))?.await.map_err(|e| format!("{e:?}")) }).await.map_err(|_| format!("open_uni #{i} within the limit blocked"))??;
+                let _ = s.write_all(b"x").await;
+                held.push(Box::new(s));
+            }
+        }
+        // one more of that kind: waits for credit (legitimately, for as long as the streams stay open)
+        let waiting = {
+            let (o, bidi) = (opener.clone(), plan.stalled_bidi);
+            tokio::spawn(async move {
+                if bidi {
+                    let _ = o.open_bi().await;
+                } else {
+                    let _ = o.open_uni().await;
+                }
+            })
+        };
+        tokio::time::sleep(Duration::from_millis(300)).await;
+        let over_limit_pending = !waiting.is_finished();
+        // the other kind
+        let payload = pattern(plan.seed, plan.len);
+        let p2 = payload.clone();
+        let (o, bidi) = (opener.clone(), !plan.stalled_bidi);
+        let opened = tokio::time::timeout(Duration::from_secs(30), async move {
+            if bidi {
+                let (mut s, r) = o.open_bi().await.map_err(|e| format!("{e:?}"))?.await.map_err(|e| format!("{e:?}"))?;
+                s.write_all(&p2).await.map_err(|e| format!("{e:?}"))?;
+                s.finish().await.map_err(|e| format!("{e:?}"))?;
+                drop(r);
+            } else {
+                let mut s = o.open_uni().await.map_err(|e| format!("{e:?}"))?.await.map_err(|e| format!("{e:?}"))?;
+                s.write_all(&p2).await.map_err(|e| format!("{e:?}"))?;
+                s.finish().await.map_err(|e| format!("{e:?}"))?;
+            }
+            Ok::<(), String>(())
+        })
+        .await;
+        let g2 = got.clone();
+        let want = payload.clone();
+        let delivered = sut::wait_until(Duration::from_secs(30), move || g2.lock().unwrap().iter().any(|b| *b == want)).await;
+        waiting.abort();
+        drop(held);
+        drop(pair);
+        Ok::<_, String>((over_limit_pending, opened.map_err(|_| "pending 30 s".to_string()).and_then(|x| x), delivered))
+    });
+    sut::finish_exec(&mut ex, &netslot, trace);
+    if !out.panics.is_empty() {
+        ex.violation("C07/panic", out.panics.join(" | "));
+        return ex;
+    }
+    match out.value {
+        None => ex.violation("C07/run-did-not-finish", "exceeded 300 s simulated".into()),
+        Some(Err(e)) => ex.violation("C07/setup", e),
+        Some(Ok((pending, opened, delivered))) => {
+            ex.nontrivial = pending;
+            ex.fault("stream_credit_exhausted_by_open_streams", plan.limit);
+            let (a, b) = if plan.stalled_bidi { ("bidirectional", "uni") } else { ("unidirectional", "bidi") };
+            if let Err(e) = opened {
+                ex.violation(
+                    &format!("C07/healthy-{b}-not-delivered"),
+                    format!("{} {a} streams are open and one more open is waiting for credit: opening / writing a {b} stream did not complete: {e}", plan.limit),
+                );
+            } else if !delivered {
+                ex.violation(
+                    &format!("C07/healthy-{b}-not-delivered"),
+                    format!("{} {a} streams are open and one more open is waiting for credit: the {b} stream written afterwards was not delivered within 30 s", plan.limit),
+                );
+            }
+        }
+    }
+    ex
+}
+
+pub struct C07Open;
+
+impl TypedScenario for C07Open {
+    type Plan = OpenPlan;
+    fn name(&self) -> &'static str {
+        "e2e-open-credit"
+    }
+    fn budget(&self, tier: Tier) -> usize {
+        match tier {
+            Tier::Quick => 800,
+            Tier::Thorough => 80_000,
+        }
+    }
+    fn generate(&self, seed: u64, index: usize, _tier: Tier) -> OpenPlan {
+        let mut rng = Rng::new(seed, "c07-open");
+        let mut net = NetCfg::clean(rng.next_u64());
+        net.lat_min_us = *rng.pick(&[200u64, 1_000, 10_000]);
+        OpenPlan {
+            seed,
+            rt: RtKnobs::from_rng(&mut rng),
+            net,
+            opener_is_client: index % 2 == 0,
+            stalled_bidi: (index / 2) % 2 == 0,
+            limit: *rng.pick(&[1u64, 2, 3, 8]),
+            len: *rng.pick(&[0usize, 1, 100, 5000]),
+        }
+    }
+    fn execute(&self, plan: &OpenPlan, trace: bool) -> Exec {
+        exec_open(plan, trace)
+    }
+}
+
 pub fn def() -> PropertyDef {
     PropertyDef {
         id: "C07",
-        scenarios: vec![Box::new(Typed(C07Raw))],
-        rule: "Each run: a scripted raw QUIC peer (client role against the real server on even indexes, server role against the real client on odd ones) opens 1-40 stalled streams (uni/bidi; no byte, first byte of the 2-byte type, type without session id, first byte of a 2/4/8-byte session id, complete preamble then silence, complete preamble plus unread data; against the server also further complete or half-written CONNECT requests left open) interleaved in generated order with 1-5 healthy WebTransport streams (tagged payloads 0..5000 B), datagrams, quiescence points and sleeps; then datagrams on a quiet network and a close capsule. The application keeps accepting streams; in 30% of the runs the stalls are then held for another 6-20 s before one more healthy stream of each kind is opened; one run in twelve builds the endpoint with the library's default transport configuration and leaves a whole default stream window (1.25 MB) unread in one accepted stream; in a quarter of the runs it calls receive_datagram only after the healthy streams have been checked, so 2-5 datagrams sit unread meanwhile. Oracle (bounded liveness, no faults): every healthy stream accepted and read byte-exact within 30 s simulated, every late datagram received, all three pending calls report ApplicationClosed with the capsule's code within 30 s. Non-trivial = at least one stalled and one healthy stream in the run; distinct = distinct plan hashes.",
+        scenarios: vec![Box::new(Typed(C07Raw)), Box::new(Typed(C07Open))],
+        rule: "Each run: a scripted raw QUIC peer (client role against the real server on even indexes, server role against the real client on odd ones) opens 1-40 stalled streams (uni/bidi; no byte, first byte of the 2-byte type, type without session id, first byte of a 2/4/8-byte session id, complete preamble then silence, complete preamble plus unread data; against the server also further complete or half-written CONNECT requests left open) interleaved in generated order with 1-5 healthy WebTransport streams (tagged payloads 0..5000 B), datagrams, quiescence points and sleeps; then datagrams on a quiet network and a close capsule. The application keeps accepting streams; in 30% of the runs the stalls are then held for another 6-20 s before one more healthy stream of each kind is opened; one run in twelve builds the endpoint with the library's default transport configuration and leaves a whole default stream window (1.25 MB) unread in one accepted stream; in a quarter of the runs it calls receive_datagram only after the healthy streams have been checked, so 2-5 datagrams sit unread meanwhile. Oracle (bounded liveness, no faults): every healthy stream accepted and read byte-exact within 30 s simulated, every late datagram received, all three pending calls report ApplicationClosed with the capsule's code within 30 s. e2e-open-credit: real endpoints; the opener has used up the acceptor's concurrent-stream credit of one kind (1-8 streams left open and unread) and one more opening of that kind waits for credit; a stream of the other kind opened then must be written, finished and delivered within 30 s. Non-trivial = at least one stalled and one healthy stream in the run (the over-limit opening really was pending); distinct = distinct plan hashes.",
         assumptions: vec![
             "bounded liveness is judged on a fault-free simulated network after the script has finished",
             "the raw peer and reference codec are harness code (validated against RFC worked examples at start-up)",
